@@ -46,9 +46,9 @@ Section Solve.
   Lemma S_objc i : (i < m)%nat -> objc T0 (nth i basis0 0%nat) == 0.
   Proof.
     intro Hi. unfold basis0. rewrite seq_nth by exact Hi. unfold objc, T0, init_tableau. cbn [t_obj fst].
-    replace n with (length (map Qred (if minimize then c else map Qopp c))).
+    replace n with (length (map Qred (scaled_row (if minimize then c else map Qopp c)))).
     - rewrite get_app_r. rewrite get_zeros. reflexivity.
-    - rewrite map_length. destruct minimize; [reflexivity | apply map_length].
+    - rewrite map_length, scaled_row_length. destruct minimize; [reflexivity | apply map_length].
   Qed.
 
   Lemma S_str : g_str N T0 basis0.
@@ -63,7 +63,7 @@ Section Solve.
 
   (* a non-negative solution of the start tableau is a feasible point with that objective value ... *)
   Lemma sol_feasible v z : length v = N -> Forall (fun q => 0 <= q) v -> tab_sat v z T0 ->
-    feasible A b (firstn n v) /\ dot w (firstn n v) == z.
+    feasible A b (firstn n v) /\ dot w (firstn n v) == row_scale w * z.
   Proof.
     intros Lv Hv Hs. set (x := firstn n v). set (s := skipn n v).
     assert (Ev : v = x ++ s) by (symmetry; apply firstn_skipn).
@@ -79,7 +79,7 @@ Section Solve.
 
   (* ... and every feasible point gives one *)
   Lemma feasible_sol y : feasible A b y ->
-    exists v, length v = N /\ Forall (fun q => 0 <= q) v /\ tab_sat v (dot w y) T0.
+    exists v, length v = N /\ Forall (fun q => 0 <= q) v /\ tab_sat v (dot w y / row_scale w) T0.
   Proof.
     intros [Hyn Hyb].
     pose proof (valid_len c A b Hvalid) as HlenA.
@@ -97,7 +97,9 @@ Section Solve.
     - apply (T0_sat minimize c A b Hvalid); [exact Ly|]. split.
       + intros k Hk. fold m in Hk. unfold s', get. rewrite nth_map_seq by exact Hk. cbn [Nat.add].
         pose proof (row_scale_pos (nth k A [])). field. lra.
-      + apply dot_pad; [|lia]. unfold w. rewrite weights_length. fold n. lia.
+      + (* the objective row is the weight vector divided by row_scale w > 0 *)
+        fold w. rewrite mul_div_cancel by apply row_scale_pos.
+        apply dot_pad; [|lia]. unfold w. rewrite weights_length. fold n. lia.
   Qed.
 
   (* ---- what the last _phase2 run proves, given the invariant and the equivalence with the start tableau *)
@@ -112,7 +114,8 @@ Section Solve.
     Let r := extract T5 basis5 n st2 k c piv5.
 
     Lemma final_point :
-      feasible A b (r_solution r) /\ dot w (r_solution r) == - snd (t_obj T5) /\ r_objective r == dot c (r_solution r).
+      feasible A b (r_solution r) /\ dot w (r_solution r) == row_scale w * - snd (t_obj T5)
+      /\ r_objective r == dot c (r_solution r).
     Proof.
       destruct (phase2_ginv N _ _ _ _ _ _ _ _ _ _ Hg4 Hrun) as [[Hs5 Hr5] [Heq5 _]].
       set (v := bsol N T5 basis5).
@@ -135,7 +138,9 @@ Section Solve.
       intros y Hy. destruct (feasible_sol y Hy) as [v [Lv [Hvn Hvs]]].
       apply (Heq4 _ _ Lv) in Hvs. apply Heq5 in Hvs.
       pose proof (optimal_lower_bound N T5 basis5 v _ Hg5 (Hopt Hst) Hvs Hvn) as Hlb.
-      assert (Hwx : dot w (r_solution r) <= dot w y) by lra.
+      assert (Hwx : dot w (r_solution r) <= dot w y).
+      { assert (Hz : - snd (t_obj T5) <= dot w y / row_scale w) by lra.
+        pose proof (le_scale _ _ _ (row_scale_pos w) Hz). lra. }
       unfold w in Hwx. rewrite !weights_dot in Hwx. destruct minimize; lra.
     Qed.
 
@@ -145,11 +150,12 @@ Section Solve.
       destruct (phase2_ginv N _ _ _ _ _ _ _ _ _ _ Hg4 Hrun) as [Hg5 [Heq5 [_ [Hunb _]]]].
       destruct (Hunb Hst) as [e [He Hl]].
       intro M.
-      destruct (unbounded_below N T5 basis5 e (if minimize then M else - M) Hg5 He Hl) as [v [z [Lv [Hvn [Hvs Hz]]]]].
+      destruct (unbounded_below N T5 basis5 e ((if minimize then M else - M) / row_scale w) Hg5 He Hl) as [v [z [Lv [Hvn [Hvs Hz]]]]].
       apply Heq5 in Hvs. apply (Heq4 _ _ Lv) in Hvs.
       destruct (sol_feasible v z Lv Hvn Hvs) as [Hf Ho].
       exists (firstn n v). split; [exact Hf|].
-      unfold w in Ho. rewrite weights_dot in Ho. destruct minimize; lra.
+      pose proof (lt_scale _ _ _ (row_scale_pos w) Hz) as Hz'.
+      unfold w in Ho, Hz'. rewrite weights_dot in Ho. destruct minimize; lra.
     Qed.
   End Final.
 
